@@ -341,17 +341,18 @@ Proof.
   apply firstn_all.
 Qed.
 
-Lemma sk_parts_loop_spec c : forall n st k, script st = [] ->
+Lemma sk_parts_loop_spec c : forall n st k,
   fst (sk_parts_loop n c st k) =
   numbered k (map (fun d => mk_chunk d 0 c (Z.of_nat (length d)) false)
                   (pieces (Z.to_nat c) (rest st) n)).
 Proof.
-  induction n as [|n IH]; intros st k Hs; [reflexivity|].
-  cbn [sk_parts_loop pieces map numbered]. unfold raw_read. rewrite Hs.
-  set (st1 := mkStream _ _ _).
-  specialize (IH st1 (k + 1) eq_refl).
-  destruct (sk_parts_loop n c st1 (k + 1)) as [more st2]. cbn [fst] in *.
-  rewrite IH. reflexivity.
+  unfold sk_parts_loop. induction n as [|n IH]; intros st k; [reflexivity|].
+  cbn [sk_parts_loop_with pieces map numbered].
+  destruct (read_from_stream_spec st c) as [R1 R2].
+  destruct (read_from_stream st c) as [d st1]. cbn [fst snd] in R1, R2.
+  specialize (IH st1 (k + 1)).
+  destruct (sk_parts_loop_with read_from_stream n c st1 (k + 1)) as [more st2]. cbn [fst] in *.
+  rewrite IH, R1, R2. reflexivity.
 Qed.
 
 Lemma pieces_private_bytes c : forall n l,
@@ -370,11 +371,11 @@ Proof.
   apply numbered_tile; [now apply pieces_concat_all|exact S1|exact S2].
 Qed.
 
-(** Full reads (an empty short-read script): BytesIO, buffered files. *)
-Theorem seekable_parts_tile_pf data p c : 0 < c -> 0 <= p ->
-  parts_tile c (skipn (Z.to_nat p) data) (plan_part_bytes (fst (sk_parts data p c []))).
+(** For EVERY short-read script of the seekable stream. *)
+Theorem seekable_parts_tile_pf data p c scr : 0 < c -> 0 <= p ->
+  parts_tile c (skipn (Z.to_nat p) data) (plan_part_bytes (fst (sk_parts data p c scr))).
 Proof.
-  intros Hc Hp. unfold sk_parts, plan_part_bytes. rewrite sk_parts_loop_spec by reflexivity.
+  intros Hc Hp. unfold sk_parts, plan_part_bytes. rewrite sk_parts_loop_spec.
   rewrite numbered_map, map_map, pieces_private_bytes. cbn [sk_stream rest].
   assert (E' : Z.to_nat (num_parts (sk_size data p) c) =
                Z.to_nat (num_parts (Z.of_nat (length (skipn (Z.to_nat p) data))) c)).
@@ -934,12 +935,11 @@ Qed.
 
 (** * The plans of the three source kinds are sound *)
 
-(** Seekable streams: positioned inside the data and returning full reads
-    (the part count is fixed from the measured size before anything is read). *)
+(** Seekable streams: positioned inside the data. *)
 Definition src_ok (src : source) : Prop :=
   match src with
   | SrcPath _ => True
-  | SrcSeekable d p scr => 0 <= p <= Z.of_nat (length d) /\ scr = []
+  | SrcSeekable d p scr => 0 <= p <= Z.of_nat (length d)
   | SrcStream _ _ => True
   end.
 
@@ -970,9 +970,9 @@ Proof.
   apply mk_chunk_wf; try lia. nia.
 Qed.
 
-Lemma sk_parts_wf data p c : 0 < c -> Forall (fun q => wf (snd q)) (fst (sk_parts data p c [])).
+Lemma sk_parts_wf data p c scr : 0 < c -> Forall (fun q => wf (snd q)) (fst (sk_parts data p c scr)).
 Proof.
-  intros Hc. unfold sk_parts. rewrite sk_parts_loop_spec by reflexivity.
+  intros Hc. unfold sk_parts. rewrite sk_parts_loop_spec.
   apply Forall_numbered. apply Forall_forall. intros ch Hch.
   apply in_map_iff in Hch as (d & <- & _). apply mk_chunk_wf; lia.
 Qed.
@@ -998,15 +998,15 @@ Proof.
       split; [apply fn_parts_wf; lia|]. split; [apply filename_parts_tile_pf; lia|]. split; [lia|exact Hin].
     + intros [= <- <- <-]. split; [apply fn_put_body_wf|]. split; [apply fn_put_body_bytes|lia].
   - (* seekable *)
-    cbn [src_ok] in Hok. destruct Hok as [Hp ->].
+    cbn [src_ok] in Hok. pose proof Hok as Hp.
     assert (Hlen : Z.of_nat (length (skipn (Z.to_nat p) d)) = sk_size d p).
     { unfold sk_size. rewrite skipn_length. lia. }
     unfold is_multipart. destruct (thr <=? sk_size d p) eqn:Em.
     + destruct (adjust_chunksize_with mn mx mp cfg (Some (sk_size d p))) as [c'|] eqn:Ea; [|discriminate].
       pose proof (adjust_with_in_limits mn mx mp Hmx cfg _ c' Ea) as Hin.
-      pose proof (sk_parts_wf d p c' ltac:(lia)) as W.
-      pose proof (seekable_parts_tile_pf d p c' ltac:(lia) ltac:(lia)) as T.
-      destruct (sk_parts d p c' []) as [parts st]. cbn [fst] in *. intros [= <- <- <-].
+      pose proof (sk_parts_wf d p c' scr ltac:(lia)) as W.
+      pose proof (seekable_parts_tile_pf d p c' scr ltac:(lia) ltac:(lia)) as T.
+      destruct (sk_parts d p c' scr) as [parts st]. cbn [fst] in *. intros [= <- <- <-].
       split; [exact W|]. split; [exact T|]. split; [lia|exact Hin].
     + intros [= <- <- <-]. split; [apply sk_put_body_wf; exact Hp|].
       split; [apply sk_put_body_bytes; lia|lia].
@@ -1229,12 +1229,14 @@ Proof.
     as (_ & _ & R3 & R4 & R5). auto.
 Qed.
 
-(** Why [seekable_parts_tile] assumes full reads: the part count is fixed
-    before reading, so a seekable stream that returns short reads loses its
-    tail (4 bytes, chunk 2, first read returns 1 byte: [1], [2;3]). *)
-Theorem seekable_short_reads_refuted_pf :
+(** Before the repair ("F15") the seekable manager did one raw read per part
+    while the part count was already fixed from the measured size: a seekable
+    stream that returns a short read lost its tail (4 bytes, chunk 2, first
+    read returns 1 byte: parts [1], [2;3]). *)
+Theorem seekable_short_reads_unrepaired_refuted_pf :
   exists data p c scr, 0 < c /\ 0 <= p <= Z.of_nat (length data) /\
-    concat (map snd (plan_part_bytes (fst (sk_parts data p c scr)))) <> skipn (Z.to_nat p) data.
+    concat (map snd (plan_part_bytes (fst (sk_parts_unrepaired data p c scr))))
+      <> skipn (Z.to_nat p) data.
 Proof. exists [1; 2; 3; 4], 0, 2, [1]. vm_compute. repeat split; discriminate. Qed.
 
 (** Any schedule of the tasks is a permutation of them. *)
